@@ -61,21 +61,28 @@ func RuleCPosting(c *core.Ctx) {
 		return
 	}
 	n := 0
+	parts := pairBuilderParts(p, build)
+	total := 0
 	for fn, as := range sites {
 		for _, a := range as {
 			n++
 			key := fmt.Sprintf("%s:allocates posting.Posting", core.FuncName(fn))
-			if fn == build {
-				c.Ob(rule, key, a.Pos(), core.FuncName(fn), core.Discharged, "allocation inside the pair builder")
+			if _, isPart := parts[fn]; isPart {
+				calls := 1
+				if fn != build {
+					calls = len(parts[fn])
+				}
+				total += calls
+				c.Ob(rule, key, a.Pos(), core.FuncName(fn), core.Discharged, "allocation inside the pair builder (or a method it alone calls on its own builder value)")
 			} else {
 				c.Ob(rule, key, a.Pos(), core.FuncName(fn), core.Violated,
 					"a Posting is allocated outside posting.Builder.Build: a hand-made posting need not have a counterpart with the negated quantity and value, which breaks the zero-sum of every report")
 			}
 		}
 	}
-	if len(sites[build]) != 2 {
+	if total != 2 {
 		c.Ob(rule, "posting.Builder.Build:two allocations", build.Pos(), core.FuncName(build), core.Undecided,
-			fmt.Sprintf("the pair builder is expected to allocate exactly two postings, found %d", len(sites[build])))
+			fmt.Sprintf("the pair builder is expected to allocate exactly two postings per call, found %d", total))
 	}
 	c.Floor(rule, 1)
 }
@@ -119,13 +126,13 @@ func RuleCValue(c *core.Ctx) {
 			fv := core.FieldOf(fa)
 			switch fv {
 			case qty, acct, other, com:
-				if fn == build {
+				if _, isPart := pairBuilderParts(p, build)[fn]; isPart {
 					return
 				}
 				c.Ob(rule, fmt.Sprintf("%s:store to Posting.%s", core.FuncName(fn), fv.Name()), st.Pos(), core.FuncName(fn), core.Violated,
 					"Posting."+fv.Name()+" is written after construction: the two halves of a pair no longer mirror each other")
 			case val:
-				if fn == build {
+				if _, isPart := pairBuilderParts(p, build)[fn]; isPart {
 					return
 				}
 				if valuationStageFuncs(p, valuate)[fn] {
@@ -164,24 +171,48 @@ func RuleJPair(c *core.Ctx) {
 		return
 	}
 	var lits []*ast.CompositeLit
-	ast.Inspect(decl.Body, func(n ast.Node) bool {
-		cl, ok := n.(*ast.CompositeLit)
-		if !ok {
+	litRecv := map[*ast.CompositeLit]string{} // name of the receiver variable of the function the literal is in
+	litFn := map[*ast.CompositeLit]*ssa.Function{}
+	collect := func(fn *ssa.Function) {
+		d, _ := p.FuncSyntax(fn).(*ast.FuncDecl)
+		inf := p.TypesInfoOf(fn.Pos())
+		if d == nil || inf == nil || d.Body == nil {
+			return
+		}
+		recv := ""
+		if d.Recv != nil && len(d.Recv.List) == 1 && len(d.Recv.List[0].Names) == 1 {
+			recv = d.Recv.List[0].Names[0].Name
+		}
+		ast.Inspect(d.Body, func(n ast.Node) bool {
+			cl, ok := n.(*ast.CompositeLit)
+			if !ok {
+				return true
+			}
+			tv, ok := inf.Types[cl]
+			if !ok {
+				return true
+			}
+			t := tv.Type
+			if pt, ok := t.Underlying().(*types.Pointer); ok {
+				t = pt.Elem()
+			}
+			if isNamed(t, postingT) {
+				lits = append(lits, cl)
+				litRecv[cl] = recv
+				litFn[cl] = fn
+			}
 			return true
-		}
-		tv, ok := info.Types[cl]
-		if !ok {
-			return true
-		}
-		t := tv.Type
-		if pt, ok := t.Underlying().(*types.Pointer); ok {
-			t = pt.Elem()
-		}
-		if isNamed(t, postingT) {
-			lits = append(lits, cl)
-		}
-		return true
-	})
+		})
+	}
+	parts := pairBuilderParts(p, build)
+	var partFns []*ssa.Function
+	for fn := range parts {
+		partFns = append(partFns, fn)
+	}
+	sort.Slice(partFns, func(i, j int) bool { return partFns[i].Pos() < partFns[j].Pos() })
+	for _, fn := range partFns {
+		collect(fn)
+	}
 	key := "posting.Builder.Build:pair literal"
 	if len(lits) != 2 {
 		c.Ob(rule, key, build.Pos(), core.FuncName(build), core.Undecided, fmt.Sprintf("expected two Posting literals in one expression, found %d", len(lits)))
@@ -228,8 +259,28 @@ func RuleJPair(c *core.Ctx) {
 			}
 		}
 	}
+	// expressions are compared as text with the receiver's name normalised, so that
+	// pb.Quantity in one method and b.Quantity in a sibling method (both called on
+	// the same builder value) are the same expression
+	norm := func(e ast.Expr, cl *ast.CompositeLit) string {
+		str := types.ExprString(e)
+		if r := litRecv[cl]; r != "" && (str == r || strings.HasPrefix(str, r+".")) {
+			return "$recv" + strings.TrimPrefix(str, r)
+		}
+		return str
+	}
+	var curA, curB *ast.CompositeLit
 	same := func(a, b ast.Expr) bool {
-		return a != nil && b != nil && pureSel(a) && pureSel(b) && types.ExprString(a) == types.ExprString(b)
+		if a == nil || b == nil || !pureSel(a) || !pureSel(b) {
+			return false
+		}
+		if curA != nil && curB != nil && litFn[curA] != litFn[curB] {
+			return norm(a, curA) == norm(b, curB) || norm(a, curB) == norm(b, curA)
+		}
+		return types.ExprString(a) == types.ExprString(b)
+	}
+	if len(lits) == 2 {
+		curA, curB = lits[0], lits[1]
 	}
 	var problems []string
 	antisym := func(name string) {
@@ -258,8 +309,19 @@ func RuleJPair(c *core.Ctx) {
 		problems = append(problems, "the two postings do not share the Commodity expression")
 	}
 	// the two literals must be elements of one enclosing literal (one expression: no store can intervene)
-	if !(lits[0].Pos() > 0 && enclosingSliceLit(decl.Body, lits[0]) != nil && enclosingSliceLit(decl.Body, lits[0]) == enclosingSliceLit(decl.Body, lits[1])) {
-		problems = append(problems, "the two postings are not elements of one composite literal")
+	if litFn[lits[0]] == litFn[lits[1]] {
+		if !(lits[0].Pos() > 0 && enclosingSliceLit(decl.Body, lits[0]) != nil && enclosingSliceLit(decl.Body, lits[0]) == enclosingSliceLit(decl.Body, lits[1])) {
+			problems = append(problems, "the two postings are not elements of one composite literal")
+		}
+	} else {
+		// two sibling methods: called once each from the pair builder, on the same builder value
+		c0, c1 := parts[litFn[lits[0]]], parts[litFn[lits[1]]]
+		switch {
+		case litFn[lits[0]] == build || litFn[lits[1]] == build || len(c0) != 1 || len(c1) != 1:
+			problems = append(problems, "the two postings are built in different functions that are not each called exactly once by the pair builder")
+		case !sameReceiverValue(p, c0[0], c1[0]):
+			problems = append(problems, "the two halves are built from different builder values (the receiver is modified between the two calls)")
+		}
 	}
 	if len(problems) == 0 {
 		c.Ob(rule, key, lits[0].Pos(), core.FuncName(build), core.Discharged,
@@ -963,4 +1025,71 @@ func valuationStageFuncs(p *core.Prog, valuate *ssa.Function) map[*ssa.Function]
 		}
 	})
 	return res
+}
+
+
+// pairBuilderParts: the pair builder and the methods of the same builder type
+// it calls on its own (unchanged) builder value to construct the two halves —
+// e.g. Build → pb.credit(), pb.debit(). Only methods that are called from the
+// pair builder and from nowhere else count.
+func pairBuilderParts(p *core.Prog, build *ssa.Function) map[*ssa.Function][]*ssa.Call {
+	parts := map[*ssa.Function][]*ssa.Call{build: nil}
+	if build == nil || build.Signature.Recv() == nil {
+		return parts
+	}
+	recvT := build.Signature.Recv().Type()
+	core.EachInstr(build, func(ins ssa.Instruction) {
+		call, ok := ins.(*ssa.Call)
+		if !ok {
+			return
+		}
+		callee := call.Call.StaticCallee()
+		if callee == nil || callee == build || callee.Signature.Recv() == nil || core.PkgPathOf(callee) != core.PkgPathOf(build) {
+			return
+		}
+		if !types.Identical(callee.Signature.Recv().Type(), recvT) {
+			return
+		}
+		// called only from the pair builder
+		if n := p.CG.Nodes[callee]; n != nil {
+			for _, e := range n.In {
+				if e.Caller.Func != build && e.Caller.Func.Synthetic == "" && p.InModule(e.Caller.Func) {
+					return
+				}
+			}
+		}
+		parts[callee] = append(parts[callee], call)
+	})
+	return parts
+}
+
+
+// sameReceiverValue: the two method calls have the same receiver value — the
+// same SSA value, or loads of one local with no store to it in between.
+func sameReceiverValue(p *core.Prog, a, b *ssa.Call) bool {
+	ra, rb := a.Call.Args[0], b.Call.Args[0]
+	if ra == rb {
+		return true
+	}
+	la, ok1 := ra.(*ssa.UnOp)
+	lb, ok2 := rb.(*ssa.UnOp)
+	if !ok1 || !ok2 || la.X != lb.X || a.Block() != b.Block() {
+		return false
+	}
+	first, second := core.InstrIndex(la), core.InstrIndex(lb)
+	if first > second {
+		first, second = second, first
+	}
+	for i, ins := range a.Block().Instrs {
+		if i <= first || i >= second {
+			continue
+		}
+		if st, ok := ins.(*ssa.Store); ok && st.Addr == la.X {
+			return false
+		}
+		if _, isCall := ins.(*ssa.Call); isCall {
+			// a call in between could modify the local only through its address; value receivers do not
+		}
+	}
+	return true
 }
